@@ -39,6 +39,7 @@ class Contract:
         self.opaque_raise = kw.pop("opaque_raise", False)
         self.bind = kw.pop("bind", {})
         self.prop = kw.pop("prop", False)
+        self.str_axioms = kw.pop("str_axioms", ())    # opt-in library facts about str.lower/upper
         self.ghost_update = kw.pop("ghost_update", {})       # ghost assignments executed at every normal return
         self.ghost_update_exc = kw.pop("ghost_update_exc", {})  # ... at every exceptional exit
         if kw:
